@@ -560,7 +560,11 @@ def announce_operational(
         await reactor.processes.answer_done(service)
 
     # Check for valid operational subcommand
-    words = command.split() + ['be', 'safe']
+    # command is 'operational <type> ...' (v6, action given) or 'announce operational <type> ...' (v4 neighbor form)
+    words = command.split()
+    if not action and words and words[0] == 'announce':
+        words = words[1:]
+    words = words + ['be', 'safe']
     if len(words) >= 2 and words[1].lower() not in (
         'asm',
         'adm',
@@ -571,7 +575,8 @@ def announce_operational(
         'lpcq',
         'lpcp',
     ):
-        reactor.processes.answer_done_sync(service)
+        self.log_failure(f'unknown operational type in : {command}')
+        reactor.processes.answer_error_sync(service)
         return False
 
     try:
